@@ -90,6 +90,7 @@ def parseTOp (s : String) : Option TClient.Op :=
   | ["gepoch", v] => do some (.gepoch (← v.toNat?))
   | ["fwd"] => some (.fwd 1)
   | ["fwd", n] => do some (.fwd (← n.toNat?))
+  | ["hold", n] => do some (.hold (← n.toNat?))
   | ["cur"] => some .cur
   | ["min"] => some .min
   | _ => none
@@ -98,7 +99,7 @@ def topName : TClient.Op → String × Nat
   | .probe _ => ("probe", 0) | .gid => ("gid", 0) | .hbget => ("hbget", 0)
   | .guard v => ("guard", v) | .unguard v => ("unguard", v) | .gpe v => ("gpe", v)
   | .relist v => ("relist", v) | .gepoch v => ("gepoch", v) | .fwd _ => ("fwd", 0)
-  | .cur => ("cur", 0) | .min => ("min", 0)
+  | .cur => ("cur", 0) | .min => ("min", 0) | .hold _ => ("hold", 0)
 
 def threadRes (seq : Bool) (tid : Nat) (s : ThreadMon) (op? : Option TClient.Op) (tok : String) : ThreadMon :=
   match op? with
